@@ -122,7 +122,7 @@ def cmd_scratch(name, ids):
             print("patch does not apply:", out)
             return 2
         for pid in ids:
-            env = dict(os.environ, VERIF_EVIDENCE_DIR=os.path.join(tmp, "evidence"), VERIF_REPO=tmp)
+            env = dict(os.environ, VERIF_EVIDENCE_DIR=os.path.join(tmp, "evidence"), VERIF_REPLAY_DIR=os.path.join(tmp, "replays"), VERIF_REPO=tmp)
             rc, out = sh(f"./check {pid} --tier quick", cwd=VERIF, env=env, timeout=3600)
             viol = [l for l in out.splitlines() if l.startswith("VIOLATION")]
             clauses = sorted({l.split("refuted:")[1].strip().split("@")[0].split("[")[0] for l in out.splitlines() if "refuted:" in l})
